@@ -477,6 +477,7 @@ func checkC02(w *World, c *Check, tier string) {
 	c.floor("C02.name", 100)
 	c.floor("C02.dup", 14)
 	checkDynamicNames(w, c, "C02.dup")
+	checkMapTermDecider(w, c)
 	c.floor("C02.kind", 100)
 	c.floor("C02.brace", 14)
 	t, err := buildTables(w)
@@ -1099,4 +1100,125 @@ func checkBraces(w *World, c *Check) {
 			c.ok("C02.brace", s.Name, w.FuncPos(m), "every non-nil result is opened and closed")
 		}
 	}
+}
+
+// checkMapTermDecider (C02.term): the writer that turns a term into its language-map form (name + "Map") decides so by
+// the number of entries of the value it writes — len(nl) / nl.Count() compared with a constant — and by nothing
+// derived (a count of the entries that have a text, a flag). The value's own encoder chooses between the plain string
+// and the object by len(n) (C02.grammar:term-kind proves the string form implies len(n) == 1); if the term is chosen by
+// a different quantity the two disagree on some values: {"en":"hello"},{"fr":""} is written as "content":{"en":"hello"},
+// an object under the plain term.
+func checkMapTermDecider(w *World, c *Check) {
+	n := 0
+	for _, f := range w.Funcs {
+		for _, b := range f.Blocks {
+			for _, in := range b.Instrs {
+				bo, ok := in.(*ssa.BinOp)
+				if !ok || bo.Op != token.ADD {
+					continue
+				}
+				if s, isC := constString(bo.Y); !isC || s != "Map" {
+					continue
+				}
+				// writers only (the reader builds the same term to look it up): a function that is handed an output buffer
+				isWriter := false
+				for _, p := range f.Params {
+					if isByteBufPtr(p.Type()) {
+						isWriter = true
+					}
+				}
+				if !isWriter {
+					continue
+				}
+				n++
+				key := funcName(f) + ":map-term"
+				// the slice parameters of f (the value being written)
+				isValueLen := func(v ssa.Value) bool {
+					for i := 0; i < 6; i++ {
+						switch x := v.(type) {
+						case *ssa.Convert:
+							v = x.X
+							continue
+						case *ssa.Call:
+							if inner, isLen := lenOperand(x); isLen {
+								v = inner
+								// len(nl) or len(*spill)
+								for j := 0; j < 3; j++ {
+									if ld, isLd := v.(*ssa.UnOp); isLd && ld.Op == token.MUL {
+										if al, isAl := ld.X.(*ssa.Alloc); isAl {
+											if st := storesTo(al); len(st) == 1 {
+												v = st[0].Val
+												continue
+											}
+										}
+									}
+									break
+								}
+								_, isParam := v.(*ssa.Parameter)
+								return isParam
+							}
+							if cal := x.Common().StaticCallee(); cal != nil {
+								if _, isGetter := lenGetterFn(cal); isGetter || smallIntFn(cal) {
+									// nl.Count(): the receiver is the (address of the spilled) parameter
+									a := x.Common().Args[0]
+									if al, isAl := a.(*ssa.Alloc); isAl {
+										if st := storesTo(al); len(st) == 1 {
+											a = st[0].Val
+										}
+									}
+									if ld, isLd := a.(*ssa.UnOp); isLd && ld.Op == token.MUL {
+										if al, isAl := ld.X.(*ssa.Alloc); isAl {
+											if st := storesTo(al); len(st) == 1 {
+												a = st[0].Val
+											}
+										}
+									}
+									_, isParam := a.(*ssa.Parameter)
+									return isParam
+								}
+							}
+							return false
+						}
+						break
+					}
+					return false
+				}
+				decided := false
+				other := ""
+				for _, g := range rawGuards(b) {
+					cmp, ok := g.cond.(*ssa.BinOp)
+					if !ok {
+						continue
+					}
+					switch cmp.Op {
+					case token.GTR, token.GEQ, token.LSS, token.LEQ, token.NEQ, token.EQL:
+					default:
+						continue
+					}
+					var v ssa.Value
+					if _, isC := cmp.Y.(*ssa.Const); isC {
+						v = cmp.X
+					} else if _, isC := cmp.X.(*ssa.Const); isC {
+						v = cmp.Y
+					} else {
+						continue
+					}
+					if isValueLen(v) {
+						decided = true
+					} else if isIntegerType(v.Type()) {
+						other = shortVal(v)
+					}
+				}
+				switch {
+				case decided:
+					c.ok("C02.term", key, w.InstrPos(bo), "the language-map term is chosen by the number of entries of the value")
+				case other != "":
+					c.bad("C02.term", key, w.InstrPos(bo), fmt.Sprintf("%s chooses the language-map term by %s, not by the number of entries of the value it writes: the value's own encoder chooses between a plain string and an object by its length, so for some values (entries without a text) the plain term gets an object or the Map term a string", funcName(f), other))
+				default:
+					c.bad("C02.term", key, w.InstrPos(bo), funcName(f)+" appends \"Map\" to a term under a condition that is not a comparison of the value's number of entries (undecided)")
+				}
+			}
+		}
+	}
+	c.stat("map_term_writers", n)
 }
